@@ -141,7 +141,7 @@ func c09R2(c *Ctx) {
 		}
 		callee := Callee(info, call)
 		name := calleeName(info, call)
-		if callee == relM || callee == putM || name == "gcPolicyRoutes" || name == "networkService.deletePodResource" {
+		if callee == relM || callee == putM || name == "gcPolicyRoutes" || isRecordDelete(p, info, call) {
 			targets = append(targets, call)
 		}
 		return true
